@@ -14,9 +14,15 @@ CLAIMED = {
  "C01": dict(
    text="Proof: CreateContainer with any well-typed options stores every object exactly (theorem create_inv: all descriptor attributes, content bytes, alignment, ID = position+1, launch script/ID/times), a later accepted add likewise (add_inv), no later operation changes an undeleted object (step_persist), GetData returns the stored region, reading after a fresh load is the same (load_image = handle), OCI digests are taken over exactly the stored bytes. Unbounded in number, size, alignment and mix of objects." + CORR,
    note=NOTE, ref="5 (C01)"),
+ "C02": dict(
+   text="Proof: for every state reachable by any history from any creation or well-formed foreign image: live IDs are unique and non-zero, free+used=capacity (invariant); a live object keeps slot, ID, attributes and content until deleted and set-operations touch only metadata/mtime of their target (persistence theorem over all operations); at most one primary partition and header arch = its arch / unknown (invariant under typed partition metadata; the raw-metadata class is refuted by a computed witness = known finding F7); modification times are the requested ones; any rejected operation leaves handle, header bytes, table bytes and every object's content unchanged; AddObject succeeds exactly when the stated conditions hold (iff), DeleteObjects removes exactly the selected objects or changes nothing; the foreign-ID-numbering class is refuted by a computed witness (known finding F5). The abstract reference model is the conjunction of these theorems (no offsets/padding in the conclusions); an explicit abstract machine with a commuting-diagram proof is not yet written." + CORR,
+   note=NOTE, ref="5 (C02)"),
  "C03": dict(
    text="Proof: in every reachable state the table lies between header and data, live regions lie in the declared data section and in the file and are pairwise disjoint (invariant, by induction over operations); a new object goes to the aligned offset at/after all data and leaves every earlier byte alone; delete keeps survivors' bytes, compaction ends the file exactly at the data end, zeroing leaves zeros in exactly the deleted regions; no operation disturbs a bystander's descriptor or bytes; nextAligned is correct for every non-negative offset and every alignment, with the overflow error exactly when the result exceeds MaxInt64." + CORR,
    note=NOTE, ref="5 (C03)"),
+ "C12": dict(
+   text="Proof: with the clock and the random-ID source as explicit inputs of the model, any history whose operations each carry the deterministic option / an explicit time or meet a deterministic image yields the same results and the same final state (handle and all bytes) for all clock readings (induction over the history); creation options that fix ID and time make the created image independent of clock and random source, in any option order; the deterministic option gives nil ID and zero time, and while no time is supplied explicitly every header and object time stays zero; explicit times land in the header modification time only (creation time and ID untouched); backend independence is C14's theorem. The option-resolution model is run against the library with options in random order; every history is executed twice across a wall-clock second boundary on memory and file backends and compared byte for byte. Partial: reproducibility of the signature bytes themselves (go-crypto) is outside the model.",
+   note=NOTE, ref="5 (C12)"),
  "C14": dict(
    text="Proof: sif.Buffer is transliterated line by line from buffer.go and proved bisimilar to a POSIX file model on every call inside its documented contract (any seek, non-empty write at any position incl. past the end, empty write inside the data, non-empty positioned read, shrinking truncate); every storage call the library issues on an image with >=1 descriptor slot is proved to be inside that contract (no empty write, no upward truncate); hence every operation history gives equal results and byte-identical contents on both backends (induction over histories). Capacity 0 is refuted by a computed witness (known finding F4b). The file model is validated against a real os.File, and the transliteration against the real sif.Buffer, on random call sequences (also outside the contract), and histories are run in lock-step on both backends.",
    note=NOTE + " The POSIX file model (Backends.file_step) is validated against this sandbox's kernel/filesystem only.", ref="5 (C14)"),
